@@ -185,6 +185,10 @@ def py_spec(f):
         if cur is not None and (cur[4] == "0" or not ext):
             return "TE"
         return "b:1"
+    if trap == "cons":
+        return ("v:" + a[0]) if a[0].startswith("o") else "TE"
+    if trap == "keys" and a[2] == "nil":
+        return "TE"
     if trap == "keys":
         ext = B(a[0])
         tk = [] if a[1] == "-" else [(t[0], t[1] == "1") for t in a[1].split(",")]
@@ -366,6 +370,12 @@ def gen_lattice(ctx):
                 L.append("E %s S ie %s %s" % (h, ext, b))
                 for thr in "01":
                     L.append("E %s S pe %s %s %s" % (h, ext, b, thr))
+    for h in "JG":
+        for res in ("o3", "o1", "n") + (("u", "i5", "t", "s1") if h == "J" else ()):
+            L.append("E %s S cons %s" % (h, res))
+        for ext in "01":
+            for tk in ("-", "a1", "a0,b1"):
+                L.append("E %s S keys %s %s nil" % (h, ext, tk))
     tks, items = key_lattice(thorough)
     for ext in "01":
         for tk in tks:
@@ -430,6 +440,10 @@ def classify(line, impl, spec):
             if not desc_ill_formed(d) and (d["g"] != "-" or d["s"] != "-") and d["g"] in ("-", "u") and d["s"] in ("-", "u") \
                     and impl.startswith("d:D:u,0,") and spec.startswith("d:A:-,-,") and impl[8:] == spec[8:]:
                 return "C11/getOwnPropertyDescriptor: accessor descriptor without getter and setter functions reported as a data property"
+        if f[1] == "G" and impl != "TE" and spec == "TE" and trap == "cons" and a[0] == "n":
+            return "C11/Go handler: a nil result of ProxyTrapConfig.Construct becomes a nil *Object value (dereferenced on first use: Go panic escapes to the host)"
+        if f[1] == "G" and impl.startswith("PANIC") and spec == "TE" and trap == "keys" and a[2] == "nil":
+            return "C11/Go handler: a nil result of ProxyTrapConfig.OwnKeys is dereferenced (Go panic escapes to the host)"
     except Exception:
         pass
     return "C11/%s: %s impl=%s spec=%s" % (trap, " ".join(f), impl, spec)
@@ -476,9 +490,12 @@ def lattice(ctx, harness, model):
         outcomes[o] = outcomes.get(o, 0) + 1
         if impl[i].startswith(("PANIC", "ERR", "GOERR", "BAD", "UNSUPP")):
             prop_bad.append(i)
+            if mech is not None and f[1] != "G":     # (a Go-handler panic is judged by the spec only: the mechanism
+                corr_bad.append(i)                   #  model has no notion of a nil *Object)
             continue
-        if mech is not None and mech[i] != impl[i]:
-            corr_bad.append(i)
+        go_nil = f[1] == "G" and ((f[3] == "cons" and f[4] == "n") or (f[3] == "keys" and f[6] == "nil"))
+        if mech is not None and mech[i] != impl[i] and not go_nil:
+            corr_bad.append(i)       # (a nil *Object from a Go handler has no counterpart in the mechanism model: spec-judged only)
         if spec_lean is not None and spec_lean[i] != spec_py[i]:
             oracle_bad.append(i)
         spec = spec_lean[i] if spec_lean is not None else spec_py[i]
@@ -891,7 +908,7 @@ def lockstep(ctx, harness, model):
 # main
 # ------------------------------------------------------------------------------------------------
 
-THEOREMS_MIN = 44
+THEOREMS_MIN = 60
 
 def build(ctx):
     regen_ok = ctx.regen()
